@@ -29,17 +29,18 @@ VARIABLES
   nfired,    \* times the wait was resolved
   subscribed,
   created,   \* the creation result as seen by the caller: "p" | "ok" | "err"
+  lost,      \* the control connection is gone
   refused,   \* Tor refused the creating command (ADD_ONION / SETCONF): there is no service, nothing will be uploaded
   devUsed
 
-vars == <<mode, up, replied, early, hostEarly, attempted, confirmed, failed, wait, nfired, subscribed, created, refused, devUsed>>
+vars == <<mode, up, replied, early, hostEarly, attempted, confirmed, failed, wait, nfired, subscribed, created, refused, lost, devUsed>>
 
 Init ==
   /\ mode \in {"first", "all"}
   /\ up = [s \in Svcs |-> [d \in Dirs |-> "none"]]
   /\ replied = FALSE /\ early = {} /\ hostEarly \in BOOLEAN
   /\ attempted = {} /\ confirmed = {} /\ failed = {}
-  /\ wait = "p" /\ nfired = 0 /\ subscribed = TRUE /\ created = "p" /\ refused = FALSE /\ devUsed = {}
+  /\ wait = "p" /\ nfired = 0 /\ subscribed = TRUE /\ created = "p" /\ refused = FALSE /\ lost = FALSE /\ devUsed = {}
 
 AddrKnown == replied \/ hostEarly      \* the client can attribute HS_DESC events to the service
 
@@ -51,20 +52,20 @@ Resolve(w) == /\ wait' = w /\ nfired' = nfired + 1 /\ subscribed' = FALSE
 Keep == UNCHANGED <<wait, nfired, subscribed, created>>
 
 Reply ==
-  /\ ~replied /\ replied' = TRUE
+  /\ ~lost /\ ~replied /\ replied' = TRUE
   /\ created' = Created(wait, TRUE)
-  /\ UNCHANGED <<mode, up, early, hostEarly, attempted, confirmed, failed, wait, nfired, subscribed, refused, devUsed>>
+  /\ UNCHANGED <<mode, up, early, hostEarly, attempted, confirmed, failed, wait, nfired, subscribed, refused, lost, devUsed>>
 
 \* Tor refuses the creating command: the creation fails, and - "on success and on failure alike" - the event
 \* subscription goes (nobody will wait for a descriptor of a service that does not exist)
 Refuse ==
-  /\ ~replied /\ replied' = TRUE /\ refused' = TRUE
+  /\ ~lost /\ ~replied /\ replied' = TRUE /\ refused' = TRUE
   /\ \A d \in Dirs : up["me"][d] = "none"        \* (Tor announces no upload for a service it does not create)
   /\ created' = "err" /\ subscribed' = FALSE
-  /\ UNCHANGED <<mode, up, early, hostEarly, attempted, confirmed, failed, wait, nfired, devUsed>>
+  /\ UNCHANGED <<mode, up, early, hostEarly, attempted, confirmed, failed, wait, nfired, lost, devUsed>>
 
 Upload(s, d) ==
-  /\ up[s][d] = "none" /\ ~(refused /\ s = "me") /\ UNCHANGED refused
+  /\ ~lost /\ up[s][d] = "none" /\ ~(refused /\ s = "me") /\ UNCHANGED <<refused, lost>>
   /\ up' = [up EXCEPT ![s][d] = "started"]
   /\ IF subscribed /\ s = "me" /\ AddrKnown
      THEN attempted' = attempted \cup {d} /\ UNCHANGED early
@@ -76,7 +77,7 @@ AllIn(c, f, a) == Cardinality(c) + Cardinality(f) = Cardinality(a)
 \* (again: Tor reports the outcome of an upload a second time - a v3 service publishes two descriptors, and one directory
 \* may be responsible for both: the same handling, and what was counted once is not counted twice)
 UploadedEv(s, d, again) ==
-  /\ up[s][d] = (IF again THEN "ok" ELSE "started") /\ UNCHANGED refused
+  /\ ~lost /\ up[s][d] = (IF again THEN "ok" ELSE "started") /\ UNCHANGED <<refused, lost>>
   /\ up' = [up EXCEPT ![s][d] = "ok"]
   /\ LET mine  == s = "me"
          \* known finding: the event is matched by directory only, so another service's upload counts
@@ -93,7 +94,7 @@ Uploaded(s, d) == UploadedEv(s, d, FALSE)
 UploadedAgain(s, d) == UploadedEv(s, d, TRUE)
 
 FailedEv(s, d, again) ==
-  /\ up[s][d] = (IF again THEN "failed" ELSE "started") /\ UNCHANGED refused
+  /\ ~lost /\ up[s][d] = (IF again THEN "failed" ELSE "started") /\ UNCHANGED <<refused, lost>>
   /\ up' = [up EXCEPT ![s][d] = "failed"]
   /\ IF subscribed /\ s = "me" /\ AddrKnown /\ d \in attempted     \* (only a directory whose upload the client saw start counts)
      THEN /\ failed' = failed \cup {d}
@@ -110,7 +111,7 @@ FailedAgain(s, d) == FailedEv(s, d, TRUE)
 \* was published) with the same event word: FAILED s d for a directory no upload was announced to.  It is not an
 \* upload and decides nothing.
 FetchFailed(s, d) ==
-  /\ up[s][d] = "none"
+  /\ ~lost /\ up[s][d] = "none"
   /\ UNCHANGED vars
 
 \* Tor's other reports about a service's descriptor - it was built (CREATED, before its uploads are announced and again
@@ -118,11 +119,20 @@ FetchFailed(s, d) ==
 \* not uploads either: they decide nothing and what has been counted so far stands.
 Notices == {"CREATED", "REQUESTED", "RECEIVED", "IGNORE"}
 Notice(s, d, k) ==
-  /\ k \in Notices
+  /\ ~lost /\ k \in Notices
   /\ UNCHANGED vars
 
+\* The control connection is lost.  No event will arrive any more: a wait that is still pending fails (also in await-all
+\* mode with some uploads confirmed and others outstanding - nobody can tell how those end), and so does a creation
+\* whose command is unanswered; the subscription goes with the rest.
+Lose ==
+  /\ ~lost /\ lost' = TRUE
+  /\ wait' = (IF wait = "p" THEN "err" ELSE wait) /\ nfired' = (IF wait = "p" THEN nfired + 1 ELSE nfired)
+  /\ subscribed' = FALSE /\ created' = (IF created = "p" THEN "err" ELSE created)
+  /\ UNCHANGED <<mode, up, replied, early, hostEarly, attempted, confirmed, failed, refused, devUsed>>
+
 Next ==
-  \/ Reply \/ Refuse
+  \/ Reply \/ Refuse \/ Lose
   \/ \E s \in Svcs, d \in Dirs : Upload(s, d) \/ Uploaded(s, d) \/ Failed(s, d) \/ FetchFailed(s, d)
   \/ \E s \in Svcs, d \in Dirs, k \in Notices : Notice(s, d, k)
   \/ \E s \in Svcs, d \in Dirs : UploadedAgain(s, d) \/ FailedAgain(s, d)
@@ -153,13 +163,13 @@ PendingMeansOutstanding ==
 AwaitAllAtCompletion ==
   [][(wait = "p" /\ wait' = "ok" /\ mode = "all" /\ Regular /\ devUsed' = {}) => OwnStarted' = {} /\ OwnOk' # {}]_vars
 FailsOnlyIfAllFailed ==
-  [][(wait = "p" /\ wait' = "err" /\ Regular /\ devUsed' = {}) => OwnOk' = {} /\ OwnStarted' = {}]_vars
+  [][(wait = "p" /\ wait' = "err" /\ ~lost' /\ Regular /\ devUsed' = {}) => OwnOk' = {} /\ OwnStarted' = {}]_vars
 \* a failure is the failure of at least one upload of this service (in every history)
-FailureNeedsFailedUpload == [][(wait = "p" /\ wait' = "err") => OwnFailed' # {}]_vars
+FailureNeedsFailedUpload == [][(wait = "p" /\ wait' = "err" /\ ~lost') => OwnFailed' # {}]_vars
 \* events of the other service never decide the outcome
 ForeignInert ==
   [][\A d \in Dirs : (up'["other"] # up["other"] /\ devUsed' = {}) => wait' = wait]_vars
-Creation == created = (IF refused THEN "err" ELSE Created(wait, replied))
+Creation == IF lost THEN created # "p" ELSE created = (IF refused THEN "err" ELSE Created(wait, replied))
 \* the subscription is gone after a failure of any kind
 GoneAfterFailure == created = "err" => ~subscribed
 TypeOK == wait \in {"p", "ok", "err"}
